@@ -122,6 +122,7 @@ def kdf(ctx):
     mut.replace_stmt('mnemonic', 'Mnemonic.to_seed', 'if validate:', 'if False:\n    pass', 'to_seed: validation skipped'),
     mut.replace_expr('mnemonic', 'Mnemonic.to_entropy', 'binresult[-len(binresult) // 33:]', 'binresult[-len(binresult) // 32:]', 'to_entropy: checksum bits taken with /32'),
     mut.cmpop('mnemonic', 'Mnemonic.to_entropy', 'checksum != self.checksum(ent)', ast.Eq, 'to_entropy: comparison inverted'),
+    mut.replace_stmt('mnemonic', 'Mnemonic.to_seed', 'if validate:', 'if validate and words not in self.__dict__.setdefault("_seen", set()):\n    self._seen.add(words)\n    self.to_entropy(words)', 'to_seed: validation skipped for sentences seen before'),
 ])
 def checksum(ctx):
     """to_entropy(includes_checksum=True) raises unless the trailing len/33 bits equal checksum(entropy bits before them);
@@ -185,6 +186,22 @@ def checksum(ctx):
     san = ('mcall', SELF, 'sanitize_mnemonic', (('var', 'words'),), ())
     ctx.require(any(b == SELF and a and a[0] in (san, ('var', 'words')) for b, a in calls), q,
                 'to_seed with default validate=True does not call self.to_entropy(words): checksum is never verified', fn)
+    # ... on EVERY path on which `validate` is true (must-pass-through on the control-flow graph): nothing but the argument may switch
+    # the validation off - not a remembered "already validated" set, not the state of the object
+    from ..cfg import build_cfg, node_asts
+    g = build_cfg(fn)
+    vcalls = set(n.id for n in g.nodes if any(isinstance(c, ast.Call) and norm(c.func) == 'self.to_entropy' for frag in node_asts(n) for c in ast.walk(frag)))
+    off = set()
+    for n in g.nodes:
+        if n.kind == 'test' and isinstance(n.ast, ast.Name) and n.ast.id == 'validate':
+            off |= set(g.false_edge(n.id))
+        if n.kind == 'test' and isinstance(n.ast, ast.UnaryOp) and isinstance(n.ast.op, ast.Not) and isinstance(n.ast.operand, ast.Name) and n.ast.operand.id == 'validate':
+            off |= set(g.true_edge(n.id))
+    p = g.path_avoiding([g.exit_return], vcalls, blocked_edges=off, skip_exc=True)
+    ctx.saw('to_seed: every path with validate true passes through self.to_entropy: %s' % (p is None))
+    if p is not None and vcalls:
+        ctx.violate(q, 'with validate=True there is a path to the seed that does not validate the sentence (%s): a test other than the validate argument skips it' % g.describe_path(p)[:100], fn,
+                    'a sentence with a wrong checksum is turned into a seed (e.g. on its second submission, once it is remembered as validated)')
 
 
 @PROP.obligation('C14.unknown-word', canaries=[
@@ -315,6 +332,22 @@ def entropy_domain(ctx):
                 ctx.violate(q, 'default call raises when %s%s' % ('' if pol else 'not ', show(t)[:200].replace(str(0xFFFFFFFFFFFFFFFFFFFFFFFFFFFFFFFEBAAEDCE6AF48A03BBFD25E8CD0364141), 'secp256k1_n')), e.node,
                             'BIP39 defines a sentence for every entropy, including all-zero and all-ones')
     ctx.saw('to_mnemonic exits: %s' % [e.kind for e in exits])
+    # the reverse direction: to_entropy refuses a sentence only for an unknown word or a checksum mismatch, never for the VALUE it decodes to
+    q = 'mnemonic:Mnemonic.to_entropy'
+    fn, exits = _run(ctx, 'to_entropy', {'words': S(('var', 'words'), 'str'), 'includes_checksum': True})
+    nraise = 0
+    for e in exits:
+        if e.kind != 'raise' or not e.pc:
+            continue
+        nraise += 1
+        t, pol = e.pc[-1]
+        sub = list(subterms(('w', t)))
+        is_checksum = any(isinstance(s_, tuple) and s_[:3] == ('mcall', SELF, 'checksum') for s_ in sub)
+        by_value = any(isinstance(s_, tuple) and s_[0] == 'bytes2int' for s_ in sub) or any(isinstance(s_, int) and not isinstance(s_, bool) and s_ > 2 ** 64 for s_ in sub)
+        if by_value and not is_checksum:
+            ctx.violate(q, 'a sentence is refused because of the value it decodes to (%s%s)' % ('' if pol else 'not ', show(t)[:160].replace(str(0xFFFFFFFFFFFFFFFFFFFFFFFFFFFFFFFEBAAEDCE6AF48A03BBFD25E8CD0364141), 'secp256k1_n')), e.node,
+                        'BIP39 entropy is not a private key: the all-zero ("abandon ... about") and all-ones ("zoo ... vote") sentences are valid and must round-trip and give their seed')
+    ctx.saw('to_entropy: %d raising paths, none decided by the decoded value' % nraise)
 
 
 @PROP.obligation('C14.word-index', canaries=[
